@@ -36,7 +36,7 @@ func init() {
 			"netsim in-memory connection stands in for TCP",
 			"one sending goroutine per endpoint defines the queue order",
 		},
-		QuickTimeout: 900,
+		QuickTimeout: 1800,
 		Run:          run,
 	})
 }
